@@ -1,3 +1,4 @@
 import MC.Props.C18
 import MC.Props.C17
 import MC.Props.C12
+import MC.Props.C11
